@@ -180,10 +180,13 @@ fn main() {
     }
     let reps = if thorough { 8 } else { 1 };
     for rep in 0..reps {
-        for fam in ["uniform", "lattice", "on_boundary", "coplanar", "pair", "single", "cospherical_lattice"] {
+        for fam in ["uniform", "lattice", "on_boundary", "coplanar", "pair", "single", "cospherical_lattice", "shallow_edge"] {
             for dim in [3usize, 2, 1] {
                 for periodic in [false, true] {
                     if !thorough && dim < 3 && rng.chance(0.4) {
+                        continue;
+                    }
+                    if fam == "shallow_edge" && dim == 1 {
                         continue;
                     }
                     let n = 1 + rng.below(if dim == 3 { 8 } else { 12 }) as usize;
